@@ -176,8 +176,9 @@ class PartitionLog:
         return sb
 
     def write_marker(self, pid, epoch, commit, now_ms, coordinator_epoch=0):
-        if pid not in self.open_txns and not commit:
-            pass
+        ps = self.producers.get(pid)
+        if ps is None or epoch > ps.epoch:
+            self.producers[pid] = ProducerState(epoch)
         raw = RR.encode_control_batch(self.next_offset, pid, epoch, commit, timestamp=now_ms,
                                       coordinator_epoch=coordinator_epoch)
         info = RR.decode_v2(raw)
@@ -266,10 +267,12 @@ class ReqCtx:
                 self.conn.close(reset=True)
                 return
             elif kind == "no_reply":
+                # a reply is only ever lost together with everything behind it on that connection
+                self.conn.muted = True
                 return
         a.reply = body
         a.t_reply = c.loop._vtime
-        if self.conn.closed:
+        if self.conn.closed or getattr(self.conn, "muted", False):
             return
         try:
             payload = RP.encode_response(self.key, self.ver, self.hdr["correlation_id"], body)
@@ -465,7 +468,8 @@ class Cluster:
                 self._post(a)
                 return
             if f.act == "swallow":
-                # never applied, never answered
+                # never applied, never answered (nor is anything behind it on this connection)
+                conn.muted = True
                 self._post(a)
                 return
             if f.act in ("apply_error",):
